@@ -666,6 +666,40 @@ func main() {
 		def("mux_run_closes_dropped", "bool", coqBool(closes), "mux_broker.go Run: the default branch of the park select closes the stream")
 	}
 
+	// ---- GRPCClient.Close: is the Shutdown request bounded by context.WithTimeout(..., k*time.Second)?
+	if gcl := load(*repo, "grpc_client.go"); gcl != nil {
+		if cl := findFunc(gcl, "GRPCClient", "Close"); cl != nil {
+			dl := int64(-1)
+			ast.Inspect(cl, func(n ast.Node) bool {
+				if ce, ok := n.(*ast.CallExpr); ok && exprString(ce.Fun) == "context.WithTimeout" && len(ce.Args) == 2 {
+					if be, ok := ce.Args[1].(*ast.BinaryExpr); ok && be.Op == token.MUL && exprString(be.Y) == "time.Second" {
+						if v, ok := evalInt(be.X); ok {
+							dl = v
+						}
+					}
+				}
+				return true
+			})
+			// the context must actually be the one passed to Shutdown
+			uses := false
+			ast.Inspect(cl, func(n ast.Node) bool {
+				if ce, ok := n.(*ast.CallExpr); ok && strings.HasSuffix(exprString(ce.Fun), ".Shutdown") && len(ce.Args) >= 1 {
+					if id, ok := ce.Args[0].(*ast.Ident); ok && id.Name == "ctx" {
+						uses = true
+					}
+				}
+				return true
+			})
+			if dl >= 0 && uses {
+				def("grpc_shutdown_deadline", "option Z", fmt.Sprintf("Some (%d)%%Z", dl), "grpc_client.go Close: the Shutdown request runs under context.WithTimeout of this many seconds")
+			} else {
+				def("grpc_shutdown_deadline", "option Z", "None", "grpc_client.go Close: the Shutdown request has no deadline of its own")
+			}
+		} else {
+			fail("GRPCClient.Close not found")
+		}
+	}
+
 	// ---- GRPCBroker.DialWithOptions: does the timeout branch of the wait delete a map entry?
 	if d := findFunc(grpcb, "GRPCBroker", "DialWithOptions"); d != nil {
 		deletes := false
